@@ -47,11 +47,11 @@ def c_op(o):
 
 
 def dest_ids(case):
-    return [d[0] for o in case["ops"] if o[0] == "add" for d in o[1] if d[1][0] not in ("file",)]
+    return [d[0] for c, o in ctx_ops(case) if o[0] == "add" for d in o[1] if d[1][0] not in ("file",)]
 
 
 def model_expr(case):
-    ops = [(Nat(0), c_op(o)) for o in case["ops"]]
+    ops = [(Nat(c), c_op(o)) for c, o in ctx_ops(case)]
     fake = {"classes": case["classes"], "registry": case.get("registry", [])}
     return "observe (run %s %s init_state) %s" % (to_coq(progs.c_config(fake)), to_coq(ops), to_coq([Nat(i) for i in dest_ids(case)]))
 
@@ -63,76 +63,131 @@ def model_obs(case, parsed):
     return progs.rename_uuids(obs)
 
 
-def run_case(case):
-    it = progs.Interp({"classes": case["classes"], "registry": case.get("registry", []), "pre": [], "prog": []})
-    el = it.eliot
-    cms = []
-    stack = []      # the interpreter's own idea of the current action
-    saved = {}      # h -> value the with-style enter must restore
-    for o in case["ops"]:
+class _Runner(object):
+    """executes operations against the real API, one execution context (thread) each"""
+
+    def __init__(self, case):
+        self.it = progs.Interp({"classes": case["classes"], "registry": case.get("registry", []), "pre": [], "prog": []})
+        self.cms = {}       # context -> stack of context managers of a.context()
+        self.stack = {}     # context -> the interpreter's own idea of the current action stack
+
+    def do(self, c, o):
+        it, el = self.it, self.it.eliot
+        stack = self.stack.setdefault(c, [])
+        cms = self.cms.setdefault(c, [])
         k = o[0]
-        try:
-            if k == "start":
-                _, h, task, t, fs = o
-                kw = it.fields(fs)
-                fn = el.start_task if task else el.start_action
-                it.register(h, it.call("start", fn, action_type=progs.type_name(t), **kw))
-            elif k == "enter":
-                a = it.actions[o[1]]
-                saved[o[1]] = stack[-1] if stack else None
-                it.call("__enter__", a.__enter__)
-                stack.append(o[1])
-            elif k == "exit":
-                a = it.actions[o[1]]
-                exc = None if o[2] is None else it.make_exn(o[2])
-                # __exit__ restores what was current at __enter__ time
-                while stack and stack[-1] != o[1]:
-                    stack.pop()
-                if stack:
-                    stack.pop()
-                it.call("__exit__", a.__exit__, type(exc) if exc is not None else None, exc, None)
-            elif k == "ctxenter":
-                cm = it.actions[o[1]].context()
-                it.call("context.__enter__", cm.__enter__)
-                cms.append(cm)
-                stack.append(o[1])
-            elif k == "ctxexit":
-                if cms:
-                    cm = cms.pop()
-                    stack.pop()
-                    it.call("context.__exit__", cm.__exit__, None, None, None)
-            elif k == "finish":
-                exc = None if o[2] is None else it.make_exn(o[2])
-                if o[1] in it.actions:
-                    it.call("finish", it.actions[o[1]].finish, exc)
-            elif k == "log":
-                it.call("log_message", el.log_message, message_type=progs.type_name(o[1]), **it.fields(o[2]))
-            elif k == "actlog":
-                it.call("Action.log", it.actions[o[1]].log, message_type=progs.type_name(o[2]), **it.fields(o[3]))
-            elif k == "tb":
-                e = it.make_exn(o[1])
-                try:
-                    raise e
-                except BaseException:
-                    it.call("write_traceback", el.write_traceback)
-            elif k in ("add", "remove", "globals"):
-                it.preop(o)
-            elif k == "probe":
-                a = el.current_action()
-                got = None if a is None else it.handle_of.get(id(a), -1)
-                it.probes.append([0, got])
-                want = stack[-1] if stack else None
-                if got != want:
-                    it.notes.append("probe_mismatch:got=%s:want=%s" % (got, want))
-        except progs.LoggingRaised:
+        if k == "start":
+            _, h, task, t, fs = o
+            kw = it.fields(fs)
+            fn = el.start_task if task else el.start_action
+            it.register(h, it.call("start", fn, action_type=progs.type_name(t), **kw))
+        elif k == "enter":
+            a = it.actions[o[1]]
+            it.call("__enter__", a.__enter__)
+            stack.append(o[1])
+        elif k == "exit":
+            a = it.actions[o[1]]
+            exc = None if o[2] is None else it.make_exn(o[2])
+            # __exit__ restores what was current in THIS context when the action was entered
+            while stack and stack[-1] != o[1]:
+                stack.pop()
+            if stack:
+                stack.pop()
+            it.call("__exit__", a.__exit__, type(exc) if exc is not None else None, exc, None)
+        elif k == "ctxenter":
+            cm = it.actions[o[1]].context()
+            it.call("context.__enter__", cm.__enter__)
+            cms.append(cm)
+            stack.append(o[1])
+        elif k == "ctxexit":
+            if cms:
+                cm = cms.pop()
+                stack.pop()
+                it.call("context.__exit__", cm.__exit__, None, None, None)
+        elif k == "finish":
+            exc = None if o[2] is None else it.make_exn(o[2])
+            if o[1] in it.actions:
+                it.call("finish", it.actions[o[1]].finish, exc)
+        elif k == "log":
+            it.call("log_message", el.log_message, message_type=progs.type_name(o[1]), **it.fields(o[2]))
+        elif k == "actlog":
+            it.call("Action.log", it.actions[o[1]].log, message_type=progs.type_name(o[2]), **it.fields(o[3]))
+        elif k == "tb":
+            e = it.make_exn(o[1])
+            try:
+                raise e
+            except BaseException:
+                it.call("write_traceback", el.write_traceback)
+        elif k in ("add", "remove", "globals"):
+            it.preop(o)
+        elif k == "probe":
+            a = el.current_action()
+            got = None if a is None else it.handle_of.get(id(a), -1)
+            it.probes.append([c, got])
+            want = stack[-1] if stack else None
+            if got != want:
+                it.notes.append("probe_mismatch:ctx%d:got=%s:want=%s" % (c, got, want))
+
+    def finish(self, case):
+        it = self.it
+        ids = dest_ids(case)
+        obs = {"dests": [[i, [progs.canon_msg(m, it) for m in it.dests[i].log]] for i in ids], "probes": it.probes, "outcome": None}
+        obs = progs.rename_uuids(obs)
+        it.check_renders()
+        obs["notes"] = it.notes
+        obs["raw"] = {str(i): [progs.raw_msg(m) for m in it.dests[i].log] for i in ids}
+        obs["fails"] = {str(i): it.dests[i].fails for i in ids}
+        return obs
+
+
+def ctx_ops(case):
+    """[(context, op)]: single-context cases keep plain ops"""
+    return [(o[0], o[1]) if case.get("mt") else (0, o) for o in case["ops"]]
+
+
+def run_case(case):
+    r = _Runner(case)
+    ops = ctx_ops(case)
+    if not case.get("mt"):
+        for c, o in ops:
+            try:
+                r.do(c, o)
+            except progs.LoggingRaised:
+                break
+        return r.finish(case)
+    # one real thread per execution context; the controller hands out one operation at a time
+    import threading
+    ctxs = sorted({c for c, _ in ops})
+    turn = {c: threading.Semaphore(0) for c in ctxs}
+    done = threading.Semaphore(0)
+    queues = {c: [o for cc, o in ops if cc == c] for c in ctxs}
+    failed = []
+
+    def body(c):
+        for o in queues[c]:
+            turn[c].acquire()
+            try:
+                if not failed:
+                    r.do(c, o)
+            except progs.LoggingRaised:
+                failed.append(c)
+            except BaseException as e:
+                failed.append("%s:%s" % (c, type(e).__name__))
+            finally:
+                done.release()
+    threads = [threading.Thread(target=body, args=(c,), daemon=True) for c in ctxs]
+    for t in threads:
+        t.start()
+    for c, o in ops:
+        turn[c].release()
+        if not done.acquire(timeout=20):
+            r.it.notes.append("hang:ctx%d" % c)
             break
-    ids = dest_ids(case)
-    obs = {"dests": [[i, [progs.canon_msg(m, it) for m in it.dests[i].log]] for i in ids], "probes": it.probes, "outcome": None}
-    obs = progs.rename_uuids(obs)
-    it.check_renders()
-    obs["notes"] = it.notes
-    obs["raw"] = {str(i): [progs.raw_msg(m) for m in it.dests[i].log] for i in ids}
-    obs["fails"] = {str(i): it.dests[i].fails for i in ids}
+    for t in threads:
+        t.join(5)
+    obs = r.finish(case)
+    if failed:
+        obs["notes"].append("thread_failed:%r" % failed)
     return obs
 
 
@@ -186,8 +241,44 @@ def gen_script(rng, late_add=False, n_ops=14, fault=0.5):
 
 
 def describe(case):
-    out = ["op:" + o[0] for o in case["ops"]]
-    kinds = [o[0] for o in case["ops"]]
+    out = ["op:" + o[0] for c, o in ctx_ops(case)]
+    kinds = [o[0] for c, o in ctx_ops(case)]
     if "add" in kinds and kinds.index("add") > 0:
         out.append("late_add")
     return out
+
+
+def gen_script_mt(rng, n_ops=16):
+    """dispatcher/worker scripts: actions are created in one execution context (thread) and run with
+    `with action:` in another, whose own current action is something else"""
+    g = progs.Gen(rng)
+    g.class_ids = g.gen_classes(2) + [2, 8]
+    dests = progs.gen_dests(rng, g, 1, 0.0)
+    ops = [[0, ["add", dests]]]
+    nctx = rng.choice([2, 2, 3])
+    created = []                       # handles started, not yet entered
+    open_with = {c: [] for c in range(1, nctx + 1)}
+    nh = [0]
+    for i in range(n_ops):
+        c = rng.randrange(1, nctx + 1)
+        r = rng.random()
+        if r < 0.3:
+            nh[0] += 1
+            ops.append([c, ["start", nh[0], rng.random() < 0.15, rng.randrange(10, 14), [[19, {"i": nh[0]}]]]])
+            created.append(nh[0])
+        elif r < 0.55 and created:
+            h = created.pop(rng.randrange(len(created)))      # possibly created by another context
+            ops.append([c, ["enter", h]])
+            open_with[c].append(h)
+        elif r < 0.7 and open_with[c]:
+            ops.append([c, ["exit", open_with[c].pop(), g.exn() if rng.random() < 0.3 else None]])
+        else:
+            ops.append([c, ["log", rng.randrange(10, 14), g.fields(1, 32, 36)]])
+        ops.append([c, ["probe"]])
+    for c in open_with:
+        while open_with[c]:
+            ops.append([c, ["exit", open_with[c].pop(), None]])
+            ops.append([c, ["probe"]])
+    for h in created:
+        ops.append([1, ["finish", h, None]])
+    return {"classes": g.classes, "registry": [], "ops": ops, "mt": True}
